@@ -1,6 +1,6 @@
 From GD Require Import C15.Order C15.NameTable.
 Require Import ExtrOcamlBasic.
 Extraction Language OCaml.
-Extraction "model.ml" init_state step pinned fixed mkCfg nentries constants reference
+Extraction "model.ml" init_state step pinned fixed mkCfg nentries constants values_of match_entries reference
   inv_full inv_core sorted_ok ids_fresh ref_ok cache_live cache_consistent meta_ok alias_live alias_resolved
   find_nd find_da find_index lin_find.
